@@ -1898,10 +1898,146 @@ def split_records(fn, classes):
         ast.fix_missing_locations(fn)
 
 
+# ---------------------------------------------------------------------------------------------
+# O: standard-library spellings -- import aliases of operator / functools / itertools /
+# collections are written with the module's own name, operator.<op>(a, b) becomes the operator,
+# operator.itemgetter(k) a lambda, and a call of a name bound once to functools.partial(F, A..)
+# becomes F(A.., ...)
+# ---------------------------------------------------------------------------------------------
+_STD = ("operator", "functools", "itertools", "collections")
+_BINOPS = {"add": ast.Add, "sub": ast.Sub, "mul": ast.Mult, "truediv": ast.Div,
+           "floordiv": ast.FloorDiv, "mod": ast.Mod, "pow": ast.Pow, "matmul": ast.MatMult}
+_CMPOPS = {"eq": ast.Eq, "ne": ast.NotEq, "lt": ast.Lt, "le": ast.LtE, "gt": ast.Gt,
+           "ge": ast.GtE, "is_": ast.Is, "is_not": ast.IsNot}
+
+
+def std_spellings(tree):
+    stores = {}
+    for n in ast.walk(tree):
+        if isinstance(n, ast.Name) and isinstance(n.ctx, (ast.Store, ast.Del)):
+            stores[n.id] = stores.get(n.id, 0) + 1
+        elif isinstance(n, ast.arg):
+            stores[n.arg] = stores.get(n.arg, 0) + 1
+        elif isinstance(n, (ast.FunctionDef, ast.ClassDef)):
+            stores[n.name] = stores.get(n.name, 0) + 1
+    alias = {}          # local name -> dotted standard name
+    for st in tree.body:
+        if isinstance(st, ast.Import):
+            for a in st.names:
+                if a.name in _STD and a.asname and not stores.get(a.asname):
+                    alias[a.asname] = a.name
+        elif isinstance(st, ast.ImportFrom) and st.module in _STD and not st.level:
+            for a in st.names:
+                local = a.asname or a.name
+                if not stores.get(local) and a.name != "*":
+                    alias[local] = st.module + "." + a.name
+
+    def dotted(name, ref):
+        parts = name.split(".")
+        node = ast.Name(id=parts[0], ctx=ast.Load())
+        for p_ in parts[1:]:
+            node = ast.Attribute(value=node, attr=p_, ctx=ast.Load())
+        return ast.copy_location(node, ref)
+
+    class A(ast.NodeTransformer):
+        def visit_Name(self, n):
+            if isinstance(n.ctx, ast.Load) and n.id in alias:
+                return dotted(alias[n.id], n)
+            return n
+    if alias:
+        tree = A().visit(tree)
+        ast.fix_missing_locations(tree)
+
+    class Ops(ast.NodeTransformer):
+        def visit_Call(self, n):
+            self.generic_visit(n)
+            f = _unparse(n.func)
+            if f.startswith("operator.") and not n.keywords and not any(
+                    isinstance(a, ast.Starred) for a in n.args):
+                op = f[9:]
+                if op in _BINOPS and len(n.args) == 2:
+                    return ast.copy_location(ast.BinOp(left=n.args[0], op=_BINOPS[op](),
+                                                       right=n.args[1]), n)
+                if op in _CMPOPS and len(n.args) == 2:
+                    return ast.copy_location(ast.Compare(left=n.args[0], ops=[_CMPOPS[op]()],
+                                                         comparators=[n.args[1]]), n)
+                if op == "neg" and len(n.args) == 1:
+                    return ast.copy_location(ast.UnaryOp(op=ast.USub(), operand=n.args[0]), n)
+                if op == "getitem" and len(n.args) == 2:
+                    return ast.copy_location(ast.Subscript(value=n.args[0], slice=n.args[1],
+                                                           ctx=ast.Load()), n)
+                if op == "itemgetter" and len(n.args) == 1:
+                    arg = ast.arg(arg="item__g")
+                    lam = ast.Lambda(
+                        args=ast.arguments(posonlyargs=[], args=[arg], kwonlyargs=[],
+                                           kw_defaults=[], defaults=[]),
+                        body=ast.Subscript(value=ast.Name(id="item__g", ctx=ast.Load()),
+                                           slice=n.args[0], ctx=ast.Load()))
+                    return ast.copy_location(lam, n)
+            # functools.partial(F, A..)(B..)  ->  F(A.., B..)
+            if isinstance(n.func, ast.Call) and _unparse(n.func.func) == "functools.partial" \
+                    and n.func.args:
+                inner = n.func
+                return ast.copy_location(ast.Call(func=inner.args[0],
+                                                  args=inner.args[1:] + n.args,
+                                                  keywords=inner.keywords + n.keywords), n)
+            return n
+    tree = Ops().visit(tree)
+    ast.fix_missing_locations(tree)
+
+    # names bound exactly once to functools.partial(...) and only ever called
+    def partial_defs(scope_body, walker):
+        out = {}
+        for a in walker:
+            if isinstance(a, ast.Assign) and len(a.targets) == 1 \
+                    and isinstance(a.targets[0], ast.Name) and isinstance(a.value, ast.Call) \
+                    and _unparse(a.value.func) == "functools.partial" and a.value.args \
+                    and not any(isinstance(x, ast.Starred) for x in a.value.args) \
+                    and not any(k.arg is None for k in a.value.keywords):
+                out[a.targets[0].id] = a.value
+        return out
+
+    def apply_partials(scope, defs):
+        if not defs:
+            return
+        counts, calls = {}, {}
+        for n in ast.walk(scope):
+            if isinstance(n, ast.Name) and n.id in defs:
+                if isinstance(n.ctx, ast.Store):
+                    counts[n.id] = counts.get(n.id, 0) + 1
+                else:
+                    calls.setdefault(n.id, []).append(n)
+        called = {}
+        for n in ast.walk(scope):
+            if isinstance(n, ast.Call) and isinstance(n.func, ast.Name) and n.func.id in defs:
+                called.setdefault(n.func.id, []).append(n)
+        for name, d in defs.items():
+            if counts.get(name) != 1:
+                continue
+            if len(calls.get(name, [])) != len(called.get(name, [])):
+                continue            # also used as a value: left alone
+            # the bound arguments must be plain (evaluated again at every call)
+            if not all(_simple_arg(x) or isinstance(x, ast.Constant) for x in d.args[1:]) \
+                    or not all(_simple_arg(k.value) or isinstance(k.value, ast.Constant)
+                               for k in d.keywords):
+                continue
+            for c in called.get(name, []):
+                c.func = copy.deepcopy(d.args[0])
+                c.args = [copy.deepcopy(x) for x in d.args[1:]] + c.args
+                c.keywords = [copy.deepcopy(k) for k in d.keywords] + c.keywords
+    apply_partials(tree, {k: v for k, v in partial_defs(tree.body, tree.body).items()
+                          if stores.get(k) == 1})
+    for fn in [n for n in ast.walk(tree) if isinstance(n, ast.FunctionDef)]:
+        apply_partials(fn, partial_defs(fn.body, ast.walk(fn)))
+    ast.fix_missing_locations(tree)
+    return tree
+
+
 def canonicalise(tree, sigs=None):
     for n in ast.walk(tree):
         if hasattr(n, "lineno"):
             n.__dict__["_src_line"] = n.lineno
+    tree = std_spellings(tree)
     tree = module_constants(tree)
     if sigs:
         tree = _KwToPos(sigs).visit(tree)
